@@ -16,3 +16,48 @@ pub open spec fn stack_ok(s: Seq<ExpressionParserItem>) -> bool {
 pub open spec fn lx_left(l: ExpressionLexer) -> int {
     l.text.len() - l.pos
 }
+
+/// priority classes of the operators (DESIGN appendix A.3, fixed before the code): a lower number binds tighter
+pub open spec fn op_prio(o: Operator) -> int {
+    match o {
+        Operator::Not => 3,
+        Operator::And | Operator::Multiply | Operator::Divide | Operator::Modulus => 5,
+        Operator::Or | Operator::Plus | Operator::Minus => 6,
+        Operator::Less | Operator::LessEqual | Operator::Greater | Operator::GreaterEqual => 9,
+        Operator::Equal | Operator::NotEqual => 10,
+        Operator::Assign | Operator::AssignUndefined => 16,
+    }
+}
+
+/// the prefix '!' and the assignments nest to the right; every other class groups left to right
+pub open spec fn prio_rtl(p: int) -> bool {
+    p == 3 || p == 16
+}
+
+/// priority of a stack item: operators by class, the member separator binds tightest, operands have none (0xff)
+pub open spec fn item_prio(i: ExpressionParserItem) -> int {
+    match i {
+        ExpressionParserItem::SToken(t) => match t {
+            Token::Operator(o) => op_prio(o),
+            Token::Separator(c) => if c == '.' { 2 } else { 0xff },
+            _ => 0xff,
+        },
+        ExpressionParserItem::SExpression(_) => 0xff,
+    }
+}
+
+/// b is the position that has to be folded first among the items [0, upto): an operator of the tightest class present,
+/// the leftmost of its class if the class groups left to right, the rightmost if it nests to the right
+pub open spec fn is_best(s: Seq<ExpressionParserItem>, upto: int, b: int, p: int) -> bool {
+    &&& 0 <= b < upto <= s.len()
+    &&& p < 0xff
+    &&& item_prio(s[b]) == p
+    &&& forall|j: int| 0 <= j < upto ==> #[trigger] item_prio(s[j]) >= p
+    &&& forall|j: int| 0 <= j < b && !prio_rtl(p) ==> #[trigger] item_prio(s[j]) > p
+    &&& forall|j: int| b < j < upto && prio_rtl(p) ==> #[trigger] item_prio(s[j]) > p
+}
+
+/// nothing to fold among the items [0, upto)
+pub open spec fn no_operator(s: Seq<ExpressionParserItem>, upto: int) -> bool {
+    forall|j: int| 0 <= j < upto ==> #[trigger] item_prio(s[j]) == 0xff
+}
